@@ -663,8 +663,10 @@ Definition wf_b (sc : scenario) (c0 : cluster) : bool :=
    the real apply / prune tasks: (1) an object is reported Skipped by its wait group exactly
    when its actuation in this run failed or was skipped; (2) after a Skipped or a timed-out
    wait event no further wait event is emitted for the object (terminal), and a Successful
-   or Failed one is only ever followed by a change (Pending / Successful / Failed), never by
-   a repeat of itself. *)
+   one is only ever followed by a change, and Pending is never repeated.  (Failed may be
+   repeated: an object reported Failed whose UID is then seen replaced is reported Failed again
+   by the AllCurrent wait - the behaviour of the repaired code, C06_witness_failed_then_replaced;
+   a first version of this monitor forbade it and was refuted on the model by a WF witness.) *)
 Definition last_act (pre : list item) (i : id) : option ast :=
   match rev (flat_map (fun it => match it with
                                  | IEv (EApply _ j s) | IEv (EPrune _ j s) => if Nat.eqb i j then [s] else []
@@ -682,7 +684,7 @@ Fixpoint c06_walk (pre : list item) (t : list item) : bool :=
            Bool.eqb (match s with WSkipped => true | _ => false end) bad_act
            && match last_wait pre i, s with
               | Some WSkipped, _ | Some WTimedOut, _ => false
-              | Some WOk, WOk | Some WFailed, WFailed | Some WPending, WPending => false
+              | Some WOk, WOk | Some WPending, WPending => false
               | _, _ => true
               end
        | _ => true
